@@ -219,6 +219,7 @@ func VerifC18History() {
 	n := verifParam("long", 7)
 	h := newHist(1000)
 	txsOf := map[int][]bitcoin.Hash32{}
+	weight := 0
 	addBlock := func(parent, ntx int) int {
 		i := len(h.hdr)
 		var txs []bitcoin.Hash32
@@ -226,7 +227,7 @@ func VerifC18History() {
 			txs = append(txs, txidOf(i, k))
 		}
 		root, _, _ := refMerkle(txs, 0)
-		hd := &wire.BlockHeader{Version: 1, Timestamp: uint32(1600000000 + 600*i), Bits: verifBitsTable[0], Nonce: uint32(1000 + i), MerkleRoot: root}
+		hd := &wire.BlockHeader{Version: 1, Timestamp: uint32(1600000000 + 600*i), Bits: verifBitsTable[weight], Nonce: uint32(1000 + i), MerkleRoot: root}
 		hd.PrevBlock = h.hash[parent]
 		idx := h.record(hd, parent)
 		if err := h.repo.ProcessHeader(h.ctx, hd); err != nil {
@@ -246,8 +247,20 @@ func VerifC18History() {
 	if err := h.repo.Clean(h.ctx); err != nil {
 		verifAssert(false, "setup-clean-failed")
 	}
-	s1 := addBlock(h.parent[p], 2) // a recent side branch of two
-	addBlock(s1, 3)
+	if nondetBool("heavy-tip") {
+		// one heavy block on the best chain, and a side branch that is taller but lighter
+		weight = 2
+		p = addBlock(p, 2)
+		weight = 0
+		s := h.parent[p]
+		for k := 0; k < 3; k++ {
+			s = addBlock(s, 1+k)
+		}
+		verifReach("taller-lighter-side-branch")
+	} else {
+		s1 := addBlock(h.parent[p], 2) // a recent side branch of two (it overtakes)
+		addBlock(s1, 3)
+	}
 
 	switch pick("then", 4) {
 	case 1:
